@@ -39,6 +39,10 @@ type sesWorld struct {
 	inReact  int
 	showCookie bool
 	jOf        map[string]string
+	// windows: a goroutine reaching an armed yield point parks there until released
+	armed     map[string]int
+	winParked map[string][]chan struct{}
+	windows   bool // the scenario uses windows: application calls run on their own goroutine
 }
 
 func (w *sesWorld) hook(point string, args ...any) {
@@ -49,6 +53,17 @@ func (w *sesWorld) hook(point string, args ...any) {
 		w.parked = append(w.parked, ch)
 		w.parkMu.Unlock()
 		<-ch
+	default:
+		w.parkMu.Lock()
+		if w.armed[point] > 0 {
+			w.armed[point]--
+			ch := make(chan struct{})
+			w.winParked[point] = append(w.winParked[point], ch)
+			w.parkMu.Unlock()
+			<-ch
+			return
+		}
+		w.parkMu.Unlock()
 	}
 }
 
@@ -166,6 +181,12 @@ func sesRun(t *testing.T, lines []string) []string {
 					close(ch)
 				}
 				w.parked = nil
+				for _, chs := range w.winParked {
+					for _, ch := range chs {
+						close(ch)
+					}
+				}
+				w.winParked = map[string][]chan struct{}{}
 				w.parkMu.Unlock()
 				w.teardown()
 			}
@@ -196,7 +217,8 @@ func sesRun(t *testing.T, lines []string) []string {
 				if f[11] != "-" {
 					opts.SetHttpCompression(&types.HttpCompression{Threshold: atoi(f[11])})
 				}
-				w = &sesWorld{world: newWorld(t, opts, nil), reacts: map[string][]string{}, jOf: map[string]string{}}
+				w = &sesWorld{world: newWorld(t, opts, nil), reacts: map[string][]string{}, jOf: map[string]string{},
+					armed: map[string]int{}, winParked: map[string][]chan struct{}{}}
 				utils.SetVerifHook(w.hook)
 				w.srv.On("connection", func(a ...any) {
 					s := a[0].(engine.Socket)
@@ -221,6 +243,18 @@ func sesRun(t *testing.T, lines []string) []string {
 			sess := func(tok string) engine.Socket { return w.sock(atoi(strings.TrimPrefix(tok, "s"))) }
 			note := ""
 			switch f[1] {
+			case "arm": // ses arm <point>: the next goroutine reaching the yield point parks there
+				w.parkMu.Lock()
+				w.armed[f[2]]++
+				w.windows = true
+				w.parkMu.Unlock()
+			case "release": // ses release <point>: the oldest goroutine parked there goes on
+				w.parkMu.Lock()
+				if chs := w.winParked[f[2]]; len(chs) > 0 {
+					close(chs[0])
+					w.winParked[f[2]] = chs[1:]
+				}
+				w.parkMu.Unlock()
 			case "react": // ses react <event> <send|close0|close1>
 				w.reacts[f[2]] = append(w.reacts[f[2]], f[3])
 			case "hs": // ses hs <transport> <eio> <b64> <j|->
@@ -311,11 +345,25 @@ func sesRun(t *testing.T, lines []string) []string {
 					tag := f[2]
 					cb = func(transports.Transport) { w.e("%s:cb:%d", tag, id) }
 				}
-				sess(f[2]).Send(data, opt, cb)
+				if w.windows {
+					so := sess(f[2])
+					go so.Send(data, opt, cb)
+				} else {
+					sess(f[2]).Send(data, opt, cb)
+				}
 			case "close": // ses close <s> <discard>
-				sess(f[2]).Close(f[3] == "1")
+				if w.windows {
+					so := sess(f[2])
+					go so.Close(f[3] == "1")
+				} else {
+					sess(f[2]).Close(f[3] == "1")
+				}
 			case "shutdown":
-				w.srv.Close()
+				if w.windows {
+					go w.srv.Close()
+				} else {
+					w.srv.Close()
+				}
 			case "adv":
 				time.Sleep(ms(f[2]))
 			case "obs":
